@@ -78,9 +78,10 @@ Theorem C02_walk_sees_the_list : forall s l fuel, repr s l -> length l < fuel ->
 Proof. exact to_list_repr. Qed.
 Print Assumptions C02_walk_sees_the_list.
 
-(** PARTIAL for Swap: proved for the general branch under the two preconditions the code does not test; the statement
-    without them is false of the model and of the code (next theorem; replayed on the binary by the hook). The
-    neighbour branches (Remove + AddBefore) and SwapLines are covered by the correspondence only. *)
+(** Swap, general branch: proved under the two preconditions the code does not test; the statement without them is false
+    of the model and of the code (C02_swap_with_first_chunk_refuted; replayed on the binary by the hook).  The neighbour
+    branches (Remove + AddBefore) follow below; all branches together: C02_swap_keeps_every_chunk.  PARTIAL: SwapLines
+    (two fuel-bounded loops over these operations) and AddHead/AddTail are covered by the correspondence only. *)
 Theorem C02_swap_far_partial : forall s l a b,
   repr s l -> In a l -> In b l -> a <> b -> prv s a <> b -> prv s b <> a ->
   prv s a <> 0 -> prv (remove s a) b <> 0 ->
@@ -98,3 +99,25 @@ Print Assumptions C02_swap_with_first_chunk_refuted.
 Example C02_list_hypotheses_satisfiable :
   repr three [1; 2; 3] /\ oks [1; 2; 3] [MoveAfter 1 3; MoveAfter 2 1; NewAfter 4 2 true 1; Delete 3].
 Proof. exact three_is_a_list. Qed.
+
+Theorem C02_add_before : forall s l r o, repr s l -> In r l -> o <> 0 -> ~ In o l -> nxt s o = 0 -> prv s o = 0 ->
+  repr (add_before s o r) (ins_before r o l) /\ isnl (add_before s o r) = isnl s /\ nlc (add_before s o r) = nlc s.
+Proof. exact add_before_abs. Qed.
+Print Assumptions C02_add_before.
+
+Theorem C02_swap_neighbours : forall s l a b, repr s l -> In a l -> In b l -> a <> b -> prv s a = b ->
+  repr (swap s a b) (ins_before b a (rem a l)) /\ Permutation l (ins_before b a (rem a l)).
+Proof. exact swap_prev_abs. Qed.
+Print Assumptions C02_swap_neighbours.
+
+(** all three branches of Swap; the disjunction is the contract (neighbours, or neither chunk first when its predecessor is read) *)
+Theorem C02_swap_keeps_every_chunk : forall s l a b, repr s l -> In a l -> In b l -> a <> b ->
+  (prv s a = b \/ prv s b = a \/ (prv s a <> 0 /\ prv (remove s a) b <> 0)) ->
+  exists l', repr (swap s a b) l' /\ Permutation l l'.
+Proof. exact swap_permutes. Qed.
+Print Assumptions C02_swap_keeps_every_chunk.
+
+Theorem C02_reordering_keeps_every_chunk : forall fuel ops s l, repr s l -> safe fuel s ops ->
+  exists l', repr (fold_left (step fuel) ops s) l' /\ Permutation l l'.
+Proof. exact reordering_keeps_every_chunk. Qed.
+Print Assumptions C02_reordering_keeps_every_chunk.
